@@ -1,6 +1,7 @@
 package main
 
 import (
+	"reflect"
 	"fmt"
 	"go/types"
 	"regexp"
@@ -619,4 +620,54 @@ func (un *Unit) allComps(text string, sc *Scope) ([]string, error) {
 		return nil, fmt.Errorf("all %s: no such field", text)
 	}
 	return out, nil
+}
+
+// verifyWire checks a wire declaration against the struct type in the tree: same fields in the same order, same Go
+// types, same json tags. One obligation per declaration, decided by the generator.
+func verifyWire(prog *Prog, specs *Specs, w *WireDecl) *Unit {
+	un := newUnit(prog, specs, nil, nil, UnitOpts{})
+	un.entry = &State{guard: "true", heap: map[string]string{}, base: "0"}
+	name := fmt.Sprintf("wire/%s.%s:%s", w.Pkg, w.Type, labelOr(w.Label, "shape"))
+	o := &Obl{Name: name, Kind: "wire", Props: w.Props, Guard: "true", Goal: "true", Fn: "wire " + w.Pkg + "." + w.Type, Text: w.Text, noSplit: true}
+	un.obls = append(un.obls, o)
+	fail := func(format string, a ...any) *Unit {
+		o.Status, o.Output, o.Solver = "failed", fmt.Sprintf(format, a...), "generator"
+		o.Decided = true
+		return un
+	}
+	// several packages of one module may share a short name: take the one that declares the type
+	var obj types.Object
+	for _, sp := range prog.ssaPkgs {
+		if sp != nil && sp.Pkg.Name() == w.Pkg {
+			if o2 := sp.Pkg.Scope().Lookup(w.Type); o2 != nil {
+				obj = o2
+			}
+		}
+	}
+	if obj == nil {
+		return fail("type %s.%s not found", w.Pkg, w.Type)
+	}
+	st, ok := obj.Type().Underlying().(*types.Struct)
+	if !ok {
+		return fail("%s.%s is not a struct", w.Pkg, w.Type)
+	}
+	var have []string
+	for i := 0; i < st.NumFields(); i++ {
+		f := st.Field(i)
+		if !f.Exported() {
+			continue // encoding/json and the protobuf / database mappers only see exported fields
+		}
+		tag := reflect.StructTag(st.Tag(i)).Get(w.TagKey)
+		have = append(have, fmt.Sprintf("%s:%s:%q", f.Name(), types.TypeString(f.Type(), func(p *types.Package) string { return "" }), tag))
+	}
+	var want []string
+	for _, f := range w.Fields {
+		want = append(want, fmt.Sprintf("%s:%s:%q", f.Name, f.Type, f.Tag))
+	}
+	if strings.Join(have, " ") != strings.Join(want, " ") {
+		return fail("declared shape differs: tree has [%s], contract says [%s]", strings.Join(have, " "), strings.Join(want, " "))
+	}
+	o.Status, o.Output, o.Solver = "discharged", "field names, types and "+w.TagKey+" tags match the declaration", "generator"
+	o.Decided = true
+	return un
 }
